@@ -143,6 +143,11 @@ func (zr *Reader) readRawData() {
 	cnt, err := zr.rd.Read(buf)
 	zr.blkLen -= cnt
 	zr.dict.WriteMark(cnt)
+	if err == io.EOF && cnt > 0 {
+		// An io.Reader may return its last bytes together with io.EOF.
+		// If more was expected, the next read reports the end again.
+		err = nil
+	}
 	if err != nil {
 		if err == io.EOF {
 			err = io.ErrUnexpectedEOF
